@@ -42,6 +42,7 @@ const (
 	knownRaceKey   = "release-race-stale-removeVersion"
 	numKeys        = 5
 	rollupInterval = timeutil.Interval(300000)
+	sourceInterval = timeutil.Interval(10000)
 	mergerName     = "c02-sorted-concat"
 )
 
@@ -79,6 +80,7 @@ type thr struct {
 	mergeSeen  bool
 	gid        int64           // goroutine id while alive
 	free       bool            // free-running (a `par` op): yield points do not park it
+	staleCand  version.Version // version a resumed removeVersion may drop although it is retained
 	blocked    bool            // waiting for the version-set mutex
 	relVer     version.Version // version whose Dec the thread is parked after
 	zero       bool            // that Dec returned 0
@@ -135,6 +137,7 @@ var parkIDs = map[string]bool{
 	"family.deleteObsoleteFiles.afterRollup": true,
 	"kv.listDir.after":                       true, "kv.removeDir.before": true, "kv.removeDir.after": true,
 	"compact.beforeRun": true, "table.newWriter.before": true, "merge.first": true, "flush.ready": true,
+	"versionSet.persist.beforeSync": true,
 }
 
 func hook(id string) {
@@ -328,6 +331,7 @@ func install() {
 		},
 		func(string) { hook("kv.removeDir.after") })
 	kv.VerifC02WrapCompactJob(func() { hook("compact.beforeRun") })
+	version.VerifC02WrapManifestWriter(func() { hook("versionSet.persist.beforeSync") })
 	table.VerifC02WrapNewWriter(func(fileName string) {
 		if t := selfThr(); t != nil {
 			if n, ok := tableNo(filepath.Base(fileName)); ok {
@@ -397,9 +401,11 @@ func (k *kase) open(threshold int, rollupOn bool) error {
 		return err
 	}
 	k.dir = dir
-	k.storeName = filepath.Join(dir, "s")
+	// a source segment store as tsdb lays it out: <base>/segment/<interval type>/<yyyymmdd>, family = hour
+	k.storeName = filepath.Join(dir, "segment", sourceInterval.Type().String(), "20190702")
 	opt := kv.DefaultStoreOption()
 	opt.TTL = ltoml.Duration(-time.Hour) // every unreferenced cache entry counts as expired
+	opt.Source = sourceInterval
 	if rollupOn {
 		opt.Rollup = []timeutil.Interval{rollupInterval}
 	}
@@ -408,7 +414,7 @@ func (k *kase) open(threshold int, rollupOn bool) error {
 		return err
 	}
 	k.store = st
-	fam, err := st.CreateFamily("f", kv.FamilyOption{Merger: mergerName, CompactThreshold: threshold})
+	fam, err := st.CreateFamily("13", kv.FamilyOption{Merger: mergerName, CompactThreshold: threshold})
 	if err != nil {
 		return err
 	}
@@ -597,6 +603,8 @@ func (k *kase) pcName(t *thr, id string) string {
 		return "allocd"
 	case "flush.ready":
 		return "ready"
+	case "versionSet.persist.beforeSync":
+		return "cLocked"
 	case "familyVersion.appendVersion.enter":
 		t.inCommit = true
 		return "cSnapped"
@@ -672,6 +680,11 @@ func (k *kase) afterPark(t *thr, pc string) {
 		}
 		k.checkCommitted(cur, fmt.Sprintf("after the version swap of %s (%s)", t.name, t.kind))
 	case "allocd":
+		for _, o := range k.jobs {
+			if o != t && o.out != 0 && o.out == t.out {
+				k.failf("duplicate-file-number", -1, "job %s was handed table number %d which job %s already owns", t.name, t.out, o.name)
+			}
+		}
 		if t.kind == "flush" { // content is known from the start; readers cannot see it before the swap
 			m := map[uint32][]uint32{}
 			for _, p := range t.payload {
@@ -726,7 +739,7 @@ func (k *kase) beforeResume(t *thr) {
 		if v := t.relVer; v != nil && t.zero {
 			cur, _ := version.VerifC02State(k.fv)
 			if v.NumOfRef() > 0 && v != cur {
-				k.tainted[v.ID()] = true
+				t.staleCand = v // confirmed after the step: only if removeVersion really dropped it
 			}
 		}
 	}
@@ -1001,6 +1014,67 @@ func (k *kase) exec(op string) string {
 		k.checkCommitted(cur, fmt.Sprintf("after %d concurrent commits returned (%s)", len(ts), strings.Join(ws[1:], ",")))
 		res = "at=" + strings.Join(parts, "+")
 		k.nonTrivial()
+	case "rollupjob":
+		// the real family.rollup() of the source family; its target store does not exist, so every
+		// target is skipped: nothing may be committed as rolled up, the deferred deleteObsoleteFiles runs
+		cur0, act0 := version.VerifC02State(k.fv)
+		marks0 := map[int64]bool{}
+		for f := range cur0.GetRollupFiles() {
+			marks0[f.Int64()] = true
+		}
+		need := map[int64]bool{}
+		for f := range marks0 {
+			need[f] = true
+		}
+		for _, v := range act0 {
+			for _, fm := range v.GetAllFiles() {
+				need[fm.GetFileNumber().Int64()] = true
+			}
+		}
+		for _, p := range kv.VerifC02Pending(k.fam) {
+			need[p] = true
+		}
+		onDisk := map[int64]bool{}
+		for _, f := range k.diskFiles() {
+			onDisk[f] = true
+		}
+		if err := kv.VerifC02RollupSync(k.fam); err != nil {
+			k.broken = "rollup job did not finish: " + err.Error()
+			res = "timeout"
+			break
+		}
+		cur1, _ := version.VerifC02State(k.fv)
+		marks1 := map[int64]bool{}
+		for f := range cur1.GetRollupFiles() {
+			marks1[f.Int64()] = true
+		}
+		var lost []int64
+		for f := range marks0 {
+			if !marks1[f] {
+				lost = append(lost, f)
+			}
+		}
+		sort.Slice(lost, func(i, j int) bool { return lost[i] < lost[j] })
+		if len(lost) > 0 {
+			k.failf("pending-rollup-forgotten", -1, "a rollup job whose target store does not exist removed the rollup marks of tables [%s] (nothing was rolled up)", joinI64(lost))
+		}
+		now := map[int64]bool{}
+		for _, f := range k.diskFiles() {
+			now[f] = true
+		}
+		var gone []int64
+		for f := range need {
+			if onDisk[f] && !now[f] {
+				gone = append(gone, f)
+			}
+		}
+		sort.Slice(gone, func(i, j int) bool { return gone[i] < gone[j] })
+		if len(gone) > 0 {
+			k.failf("pending-rollup-file-deleted", -1, "the rollup job's cleanup deleted tables [%s] that an active version / pending rollup mark / pending output still needed", joinI64(gone))
+		}
+		// the job has a slot in the model's job table (it is a deleteObsoleteFiles job there)
+		k.jobs = append(k.jobs, &thr{name: fmt.Sprintf("j%d", len(k.jobs)), kind: "delobs", done: true, at: "done"})
+		res = "ok"
 	case "cleanup":
 		res = "ok"
 	}
@@ -1055,6 +1129,19 @@ func (k *kase) settleOp(op string, t *thr) (string, string) {
 		return op, "timeout"
 	}
 	res := k.parked(t, got[t])
+	if v := t.staleCand; v != nil {
+		t.staleCand = nil
+		_, act := version.VerifC02State(k.fv)
+		still := false
+		for _, a := range act {
+			if a == v {
+				still = true
+			}
+		}
+		if !still && v.NumOfRef() > 0 {
+			k.tainted[v.ID()] = true
+		}
+	}
 	// threads released by this step: those that do not end up holding the mutex first (they allocated
 	// a file number and went on), ordered by the number they got, then the new holder
 	var woken []*thr
@@ -1237,7 +1324,9 @@ const (
 	nWitness  = 2
 	nDirectDO = 32 // 4 park points of deleteObsoleteFiles × {flush, compact} × 4 writer stages
 	nDirectCC = 16 // overlapping committers (12 scheduled through the mutex, 4 released together)
-	nDirected = nWitness + nDirectDO + nDirectCC
+	nDirectAL = 4  // allocations while a commit is between reading and storing the file counter
+	nDirectRU = 4  // real rollup job with an absent target store after the marked tables were compacted away
+	nDirected = nWitness + nDirectDO + nDirectCC + nDirectAL + nDirectRU
 )
 
 func (k *kase) lastJob() string { return k.jobs[len(k.jobs)-1].name }
@@ -1326,6 +1415,52 @@ func (k *kase) directCC(rng *rand.Rand, d int) {
 	k.finish(t1)           // releases the mutex on its way: t2 goes on
 	k.finish(t2)
 	k.finish(t1)
+	k.drain(rng)
+}
+
+// directAlloc: commit C is parked inside CommitFamilyEditLog right before the manifest sync (it has
+// read the next file number and will store it back when it applies its edit log); two flushers ask
+// for table numbers meanwhile (NextFileNumber blocks on the version-set mutex until C is through);
+// a further flusher allocates after C returned. No two builders may own one number.
+func (k *kase) directAlloc(rng *rand.Rand, d int) {
+	k.setupFlushes(rng, 1+d%2)
+	k.exec("spawn flush " + k.newPayload(rng))
+	c := k.lastJob()
+	k.runUntil(c, "ready")
+	k.exec("spawn flush " + k.newPayload(rng))
+	a := k.lastJob()
+	k.exec("spawn flush " + k.newPayload(rng))
+	b := k.lastJob()
+	k.runUntil(c, "cLocked")
+	k.exec("run " + a)
+	k.exec("run " + b)
+	if d >= 2 {
+		k.exec("spawn compact") // a compaction output allocation joins
+	}
+	k.finish(c)
+	k.exec("spawn flush " + k.newPayload(rng))
+	dd := k.lastJob()
+	k.exec("run " + dd)
+	for _, n := range []string{a, b, dd} {
+		k.finish(n)
+	}
+	k.drain(rng)
+}
+
+// directRollup: the tables carrying rollup marks are compacted away (only the marks keep them
+// alive), then the real rollup job runs with its target store missing.
+func (k *kase) directRollup(rng *rand.Rand, d int) {
+	k.setupFlushes(rng, 2+d%2)
+	k.exec("spawn compact")
+	k.finish(k.lastJob())
+	if d >= 2 {
+		k.exec("acquire 0")
+		k.nReaders = 1
+	}
+	k.exec("rollupjob")
+	k.exec("spawn delobs")
+	k.finish(k.lastJob())
+	k.exec("rollupjob")
 	k.drain(rng)
 }
 
@@ -1449,6 +1584,10 @@ func (k *kase) random(rng *rand.Rand, steps int) {
 				k.exec("par " + strings.Join(ready, " "))
 				continue
 			}
+		}
+		if !k.anyBlocked() && k.lockFree() && rng.Intn(25) == 0 {
+			k.exec("rollupjob")
+			continue
 		}
 		switch {
 		case x < 45 && len(run) > 0:
@@ -1620,6 +1759,10 @@ func (area) Run(c *core.Ctx) error {
 		if i >= nDirected {
 			threshold = 1 + rng.Intn(3)
 			rollupOn = rng.Intn(3) == 0
+		} else if i >= nWitness+nDirectDO+nDirectCC+nDirectAL {
+			rollupOn = true
+		} else if i >= nWitness+nDirectDO+nDirectCC {
+			rollupOn = i%2 == 0
 		} else if i >= nWitness+nDirectDO {
 			rollupOn = true
 		} else if i >= nWitness {
@@ -1638,11 +1781,21 @@ func (area) Run(c *core.Ctx) error {
 			k.directDO(rng, i-nWitness)
 			c.NonTrivial()
 			c.Branch("directed:commit-inside-deleteObsoleteFiles")
-		} else if i < nDirected {
+		} else if i < nWitness+nDirectDO+nDirectCC {
 			k.racy = racy
 			k.directCC(rng, i-nWitness-nDirectDO)
 			c.NonTrivial()
 			c.Branch("directed:overlapping-committers")
+		} else if i < nWitness+nDirectDO+nDirectCC+nDirectAL {
+			k.racy = racy
+			k.directAlloc(rng, i-nWitness-nDirectDO-nDirectCC)
+			c.NonTrivial()
+			c.Branch("directed:allocations-inside-commit")
+		} else if i < nDirected {
+			k.racy = racy
+			k.directRollup(rng, i-nWitness-nDirectDO-nDirectCC-nDirectAL)
+			c.NonTrivial()
+			c.Branch("directed:rollup-job-absent-target")
 		} else {
 			k.racy = racy
 			steps := 50 + rng.Intn(70)
